@@ -424,7 +424,7 @@ pub fn c08(tier: &str, acc: &mut Acc, bounds: &mut Vec<String>) {
             Scope::new(2, 4, 3, Order::SetsBothWays, 6, 2),
         ]
     } else {
-        vec![Scope::new(2, 3, 3, Order::SetsBothWays, 5, 2)]
+        vec![Scope::new(2, 3, 3, Order::SetsBothWays, 5, 2), Scope::new(2, 4, 3, Order::Sets, 5, 1)]
     };
     for scope in &scopes {
         let a = e2::run_scope(scope, &cembs, |ctx, acc| {
